@@ -6,7 +6,7 @@ If silent, the refactoring is stored under /verif/benign/<name>.diff."""
 import sys, os, subprocess, shutil, tempfile
 patch = os.path.abspath(sys.argv[1])
 name = sys.argv[2] if len(sys.argv) > 2 else os.path.basename(patch)
-env = dict(os.environ, GOFLAGS="-mod=mod", GOPROXY="off", GOSUMDB="off", GOTOOLCHAIN="local"); env.pop("GOWORK", None)
+env = dict(os.environ, GOFLAGS="-mod=mod -trimpath", GOPROXY="off", GOSUMDB="off", GOTOOLCHAIN="local"); env.pop("GOWORK", None)
 def run(cmd, cwd, timeout=900):
     r = subprocess.run(cmd, shell=True, cwd=cwd, env=env, capture_output=True, text=True, timeout=timeout)
     return r.returncode, r.stdout + r.stderr
